@@ -115,7 +115,8 @@ func (l *Lexer) readLeadingComments() {
 				l.hadNewlineBefore = true
 				l.ReadChar()
 			}
-			l.leadingComments = append(l.leadingComments, strings.TrimRight(comment.String(), " "))
+			// the carriage return of a CRLF line ending is not part of the comment
+			l.leadingComments = append(l.leadingComments, strings.TrimRight(comment.String(), " \r"))
 		}
 
 		if !isWhitespace(l.CurrentChar) {
